@@ -342,3 +342,18 @@ impl ConfigBuilder {
         )
     }
 }
+
+#[cfg(feature = "verif")]
+impl ConfigBuilder {
+    /// Verification hook: like [`ConfigBuilder::build`], but the event channel towards the
+    /// [`KademliaHandle`] has `event_capacity` slots (the handlers of the event loop await on it).
+    pub fn verif_build_bounded(self, event_capacity: usize) -> (Config, KademliaHandle) {
+        let (mut config, _handle) = self.build();
+        let (cmd_tx, cmd_rx) = channel(DEFAULT_CHANNEL_SIZE);
+        let (event_tx, event_rx) = channel(event_capacity);
+        config.cmd_rx = cmd_rx;
+        config.event_tx = event_tx;
+        let handle = KademliaHandle::new(cmd_tx, event_rx, config.next_query_id.clone());
+        (config, handle)
+    }
+}
